@@ -4,6 +4,7 @@ import (
 	"context"
 	"encoding/hex"
 	"fmt"
+	"os"
 	"sort"
 	"strconv"
 	"strings"
@@ -412,4 +413,48 @@ func (r *Real) Reopen() (l2 *hlib.TLake, err error) {
 		}
 	}
 	return nil, err
+}
+
+// PruneSnaps removes the persisted snapshot cache file (<commit>.snap.zng) of every second
+// commit.  The files are caches written whenever a snapshot is computed for a leaf; a lake in
+// which some commits have one and others do not is an ordinary state.  On a handle with cold
+// in-memory caches the snapshot of a commit without a file is then computed by walking to an
+// ancestor that has one.
+func (r *Real) PruneSnaps(salt int) {
+	for c := 1; c <= len(r.Commits); c++ {
+		if (c+salt)%2 == 1 {
+			os.Remove(fmt.Sprintf("%s/%s/commits/%s.snap.zng", r.L.Dir, r.Pool, r.Commits[c-1]))
+		}
+	}
+}
+
+// ColdProbe queries every commit through a freshly opened handle, newest first (descendant
+// before ancestor) or in a seeded random order, then every branch by name.
+func (r *Real) ColdProbe(order []int) (commits []CommitObs, branches []BranchObs, err error) {
+	l2, err := r.Reopen()
+	if err != nil {
+		return nil, nil, nil // lake.Open hiccup (see Reopen): skip the probe
+	}
+	warm := r.L
+	r.L = l2
+	defer func() { r.L = warm }()
+	for _, c := range order {
+		co := CommitObs{ID: c, Status: "ok"}
+		scan, err := r.scan(r.Rev(c))
+		if err != nil {
+			co.Status = ErrClass(err)
+		}
+		co.Scan = scan
+		commits = append(commits, co)
+	}
+	for _, b := range r.Names {
+		bo := BranchObs{Name: b, Tip: r.Tips[b], Status: "ok"}
+		scan, err := r.scan(BranchName(b))
+		if err != nil {
+			bo.Status = ErrClass(err)
+		}
+		bo.Scan = scan
+		branches = append(branches, bo)
+	}
+	return commits, branches, nil
 }
